@@ -353,6 +353,8 @@ def program_features(source):
                 top = True
             if isinstance(p, (ast.If, ast.While)) and p.test is node:
                 top = True
+            if isinstance(p, ast.For) and p.iter is node:
+                top = True  # becomes the only argument of iter(): nothing is evaluated before it
             if not top:
                 feats["boolop_nontoplevel"] = True
     # an if whose two arms do nothing and lead to the same place
